@@ -290,7 +290,7 @@ Fixpoint setopt (fuel : nat) (w : pw) (c : cfg) (o : opt) (txt : option str) {st
           end
       | KPtr =>
           match cb_parse (o_cbs o1) with
-          | None => (w1, o1, None)
+          | None => (add_diags w1 (cfg_diag c "no value parser for option '%s'"), o1, None)
           | Some k =>
               let '(w2, f) := run_parsecb w1 k o1 txt in
               if f then (w2, o1, None)
